@@ -3,9 +3,13 @@ package verifsim
 import (
 	"fmt"
 	"os"
+	"runtime"
 	"sort"
 	"strings"
+	"sync"
 	"sync/atomic"
+
+	"github.com/sirupsen/logrus"
 	"time"
 
 	"github.com/taskctl/taskctl/pkg/executor"
@@ -32,6 +36,7 @@ type IntegProfile struct {
 	CancelAt      int    // >=0: fire the first Cancel exactly at this step
 	CancelVia     string // "runner" | "scheduler"
 	CancelAfter   bool   // fire remaining Cancels after everything returned
+	LogYield      bool   // log lines emitted inside Cancel are park points
 	Checks        map[string]bool
 }
 
@@ -88,7 +93,9 @@ type integEngine struct {
 	maxExecPar  int
 	writing     atomic.Value // string: exec key whose chunk is being delivered
 	limboUsed   int
+	cancelGIDs  sync.Map // goroutines that are executing Cancel: their log lines are park points
 	cli         bool
+	logSeq      int32
 	nstages     int
 	runGID      []runRec
 }
@@ -232,6 +239,10 @@ func (e *integEngine) buildGraph(g *GraphSpec) (*scheduler.ExecutionGraph, error
 
 func (e *integEngine) installHooks() {
 	c := e.c
+	if e.prof.LogYield {
+		logrus.SetLevel(logrus.DebugLevel)
+		logYield.Store(e.logPark)
+	}
 	executor.VerifInterpOptions = []interp.RunnerOption{interp.ExecHandler(e.pl.Handler)}
 	scheduler.VerifYield = func(kind string, subj interface{}) {
 		if kind == "stage-start" {
@@ -353,7 +364,20 @@ func (e *integEngine) runCLI(res *RunResult) *integEngine {
 	return e
 }
 
+// logPark: inside Cancel every log line is a park point (profile LogYield): other goroutines may
+// run between the steps of the cancellation hand-shake.
+func (e *integEngine) logPark(msg string) {
+	if who, ok := e.cancelGIDs.Load(curGID()); ok {
+		k := atomic.AddInt32(&e.logSeq, 1)
+		e.c.Yield("log", fmt.Sprintf("cancel%v#%d", who, k), msg)
+	}
+}
+
 func (e *integEngine) removeHooks() {
+	if e.prof.LogYield {
+		logYield.Store((func(string))(nil))
+		logrus.SetLevel(logrus.PanicLevel)
+	}
 	executor.VerifInterpOptions = nil
 	scheduler.VerifYield = nil
 	runner.VerifYield = nil
@@ -388,9 +412,8 @@ func RunIntegWorld(c *Ctl, prof *IntegProfile, w *IntegWorld, res *RunResult) *i
 	e.sink = &recSink{c: c, name: "stdout", cur: func() string { return e.writing.Load().(string) }}
 	e.esink = &recSink{c: c, name: "stderr", cur: func() string { return e.writing.Load().(string) }}
 	e.pl.onWrite = func(key string) { e.writing.Store(key) }
-	if w.Format == output.FormatCockpit {
-		output.VerifReset()
-	}
+	// the output package's globals (close channel, shared cockpit) must belong to this bubble
+	output.VerifReset()
 	if len(w.CLIArgs) > 0 {
 		return e.runCLI(res)
 	}
@@ -409,6 +432,7 @@ func RunIntegWorld(c *Ctl, prof *IntegProfile, w *IntegWorld, res *RunResult) *i
 			res.HarnessErr = "config: " + err.Error()
 			return nil
 		}
+		tr.SetContexts(e.ctxs)
 		defer os.RemoveAll(e.tmpDir)
 	} else {
 		for _, gs := range w.AllGraphs() {
@@ -473,6 +497,7 @@ func RunIntegWorld(c *Ctl, prof *IntegProfile, w *IntegWorld, res *RunResult) *i
 			if a.Kind == "abort" {
 				return
 			}
+			e.cancelGIDs.Store(curGID(), fmt.Sprint(i))
 			c.Note("cancel-call", fmt.Sprint(i), "")
 			if prof.CancelVia == "scheduler" && e.sd != nil {
 				e.sd.Cancel()
@@ -573,8 +598,8 @@ func (e *integEngine) nextWake() time.Duration {
 		if plan.DurMS > 0 {
 			consider(floorTick(info.StartAt) + time.Duration(plan.DurMS)*time.Millisecond)
 		}
-		if info.HasTimeout {
-			consider(info.Deadline)
+		if info.HasTimeout && info.Deadline-now <= 5*time.Second {
+			consider(info.Deadline) // far deadlines (timeouts that never expire in this world) are not waited for
 		}
 	}
 	if best == 0 {
@@ -750,12 +775,35 @@ func (e *integEngine) limbo(first *Park) {
 		}
 		return false
 	}
+	// Let the released goroutines run until they block: on the Once's mutex if Up() is correct, or
+	// at their next park / report if they got past Up(). Every other goroutine of the world is
+	// parked, so whatever is reported now comes from them. (synctest.Wait cannot be used: a
+	// goroutine blocked on a mutex is not durably blocked.)
+	for i := 0; i < 100; i++ {
+		runtime.Gosched()
+	}
+	early := []report{}
+drainEarly:
+	for {
+		select {
+		case r := <-c.reports:
+			early = append(early, r)
+		default:
+			break drainEarly
+		}
+	}
 	if !release() {
 		// up in progress but no up command parked: cannot happen in a quiescent state
 		panic("verifsim: limbo without a parked up command for " + name)
 	}
 	for {
-		r := <-c.reports
+		var r report
+		if len(early) > 0 {
+			r, early = early[0], early[1:]
+		} else {
+			r = <-c.reports
+		}
+		c.Reported++
 		switch {
 		case r.park != nil:
 			p := r.park
